@@ -160,7 +160,7 @@ def accepts(aut, word):
 
 # ---------------------------------------------------------------------------
 # strategies / exhaustive domains
-def default_L(n, tier, maxlabel=7):
+def default_L(n, tier):
     if n == 2:
         return None
     return {3: (8, 11), 4: (6, 8), 5: (5, 6)}[n][0 if tier == "quick" else 1]
@@ -204,8 +204,8 @@ def coxeter_case(draw, tier_L=None, ranks=(2, 3, 4, 5)):
     if n == 2:
         case["L"] = rank2_L(labels[0])
     else:
-        hi = {3: 9, 4: 6, 5: 5}[n]
-        case["L"] = draw(st.integers(max(2, hi - 3), hi))
+        hi = {3: 10, 4: 7, 5: 6}[n]
+        case["L"] = draw(st.integers(hi - 3, hi))
     return case
 
 
